@@ -9,7 +9,9 @@ import CJ.Drv.Util
 * `hbsctp|<maxMsg>|<hb>|<items>|<sizes>` — the same through the heartbeat filter (`hbConn`); `hb` is the
   *configured* payload: hex, or `nil:<default hex>` (none configured) / `empty:<default hex>` (an empty one
   configured); the filter works with `validate` of it.
-* `flow|<max>|<ops>` — write flow control; ops `,`-separated: `w<n>` `d<k>` `h<n>` `c`.
+* `flow|<max>|<ops>` — write flow control; ops `,`-separated: `w<n>` `d<k>` `h<n>` `c`, and `t<ms>`:
+  that much time passes with the network as it is (every wake-up source that time or anything else but
+  `Close` and the buffered-amount-low notification could make ready fires: `GOp.fire`).
   Answer: one outcome per op, then `B=<buffered>`, `T=<token>`.
 * `wd|<T>|<events>` — watchdog; events as characters `t` (tick) `h` (heartbeat) `l` (lost heartbeat)
   `d` (data).  Answer: `closed=<0|1>`. -/
@@ -78,6 +80,11 @@ def parseWOp (s : String) : Option WOp :=
   else if s.startsWith "h" then (s.drop 1).toString.toNat?.map .hbWrite
   else none
 
+/-- one harness op as model events; `t<ms>` fires the timer and the catch-all source -/
+def parseGOps (s : String) : Option (List GOp) :=
+  if s.startsWith "t" then (s.drop 1).toString.toNat?.map fun _ => [.fire .timer, .fire .other]
+  else (parseWOp s).map fun o => [.op o]
+
 def showWOut : WOut → String
   | .wrote n => s!"wrote:{n}"
   | .zero => "zero"
@@ -92,9 +99,12 @@ def handleFlow (args : List String) : Option String :=
   match args with
   | [mx, ops] => do
     let max ← mx.toNat?
-    let ops ← (fields ops ",").mapM parseWOp
-    let (s, outs) := ops.foldl (fun (acc : WState × List String) o =>
-      let (s', out) := wstep max acc.1 o
+    let ops ← (fields ops ",").mapM parseGOps
+    -- the outcome of an op is the outcome of its last event that has one
+    let (s, outs) := ops.foldl (fun (acc : WState × List String) evs =>
+      let (s', out) := evs.foldl (fun (a : WState × WOut) e =>
+        let (s2, o2) := gstep sourceShape max a.1 e
+        (s2, if o2 = .none then a.2 else o2)) (acc.1, WOut.none)
       (s', showWOut out :: acc.2)) (({} : WState), [])
     some (joinWith "," outs.reverse ++ s!"|B={s.buffered}|T={showBool s.token}")
   | _ => none
